@@ -10,11 +10,40 @@ import re
 
 from ..engine.program import AnalysisError, dotted, src, walk_no_nested, call_name, enclosing_function, enclosing_stmt
 from ..engine import flow
+DSP = "src/dataset_processor.py"
 
 TP = "src/transcript_printer.py"
 GI = "src/gene_info.py"
 GMC = "src/graph_based_model_construction.py"
 MUTATORS = {"append", "insert", "pop", "sort", "reverse", "extend", "remove", "clear"}
+
+
+# exon lists on which the print gate is decided by finite case analysis: (exons, must be accepted?)
+VALIDATE_CASES = [
+    ([(5, 9)], True), ([(5, 5)], True), ([(1, 1)], True), ([(1, 2), (3, 3)], True), ([(10, 20), (30, 40), (50, 50)], True),
+    ([(5, 4)], False), ([(0, 3)], False), ([(-3, 3)], False), ([(10, 20), (5, 8)], False), ([(10, 20), (30, 29)], False),
+]
+
+
+def validate_predicate(prog, ctx, tag, consequence):
+    """validate_exons accepts exactly the well-formed exon lists (sorted, 1 <= start <= end; a 1-bp exon is well-formed) - decided by
+    interpreting its body on a fixed set of small exon lists (no repository code is run)."""
+    from ..engine import staticeval
+    v = prog.func(TP, "validate_exons")
+    bad = None
+    for exons, want in VALIDATE_CASES:
+        try:
+            got = staticeval.call_function(v, [list(exons)], funcs=staticeval.module_helpers(prog))
+        except (staticeval.NoEval, IndexError, TypeError, KeyError) as e:
+            raise AnalysisError("validate_exons is not statically evaluable (%s)" % e)
+        if bool(got) != want:
+            bad = bad or (exons, want, got)
+    if bad:
+        ctx.fail(tag, v, "validate_exons", src(v.body[-1])[:100], "validate_exons %s the exon list %s (%s): %s"
+                 % ("rejects" if bad[1] else "accepts", bad[0], "well-formed: sorted, 1 <= start <= end" if bad[1] else "malformed", consequence))
+    else:
+        ctx.ok(tag, "%s:%d" % (TP, v.lineno), "validate_exons accepts exactly the well-formed lists among %d cases (1-bp exons, unsorted, start > end, start < 1)"
+               % len(VALIDATE_CASES))
 
 
 def g1(prog, ctx):
@@ -127,12 +156,7 @@ def g1(prog, ctx):
             ctx.fail("G1", s, f._qualname, src(s), "gene record coordinates are not the range over validated transcripts")
     ctx.floor("G1", "GTF write sites", n, 3)
     # validate_exons itself: sortedness and 0 < start <= end
-    v = prog.func(TP, "validate_exons")
-    vt = src(v)
-    if "sorted(" not in vt or not re.search(r"0 < (\w+)\[0\] <= \1\[1\]", vt):
-        ctx.fail("G1", v, "validate_exons", vt[-90:], "validate_exons no longer checks sortedness and 0 < start <= end of every exon")
-    else:
-        ctx.ok("G1", "%s:%d" % (TP, v.lineno), "validate_exons: sorted and 0 < start <= end for all exons")
+    validate_predicate(prog, ctx, "G1", "a malformed model is printed, or a well-formed one is dropped from the GTF")
     # no other function writes to out_gff except merge (which copies files); helpers called only from dump were inlined above
     gp = prog.cls(TP, "GFFPrinter")
     gmeths = prog.methods_of(gp, inherited=False)
@@ -432,6 +456,67 @@ def g5(prog, ctx):
                          "forgets what earlier sub-regions of the chromosome already reported")
 
 
+def g6(prog, ctx):
+    """extended_annotation.gtf holds every reference transcript of every chromosome: whether the per-chromosome extended storage is built
+    and dumped may depend on the run's options only (model construction on, annotation given), never on what the chromosome produced."""
+    f = prog.func(DSP, "construct_models_in_parallel")
+    sites = []
+    for st in walk_no_nested(f):
+        for c in (x for x in ast.walk(st) if isinstance(x, ast.Call)) if isinstance(st, (ast.Assign, ast.Expr)) else ():
+            cn = (call_name(c) or "").split(".")[-1]
+            if cn == "create_extended_storage":
+                sites.append((st, c, "the extended storage (reference + novel transcripts of the chromosome) is built"))
+    names = set()
+    for st, c, _w in sites:
+        for t in getattr(st, "targets", []):
+            names |= {n.id for n in ast.walk(t) if isinstance(n, ast.Name)}
+    for st in walk_no_nested(f):
+        if isinstance(st, ast.Expr) and isinstance(st.value, ast.Call) and isinstance(st.value.func, ast.Attribute) and st.value.func.attr == "dump" \
+                and names and names & {n.id for a in st.value.args for n in ast.walk(a) if isinstance(n, ast.Name)}:
+            sites.append((st, st.value, "the extended annotation of the chromosome is written"))
+    if len(sites) < 2:
+        raise AnalysisError("construct_models_in_parallel: create_extended_storage(...) and the dump of its result not found")
+    defs = {}
+    for a in walk_no_nested(f):
+        if isinstance(a, ast.Assign) and len(a.targets) == 1 and isinstance(a.targets[0], ast.Name):
+            defs.setdefault(a.targets[0].id, []).append(a)
+    mutated = {dotted(c.func.value) for c in walk_no_nested(f) if isinstance(c, ast.Call) and isinstance(c.func, ast.Attribute)
+               and c.func.attr in ("append", "add", "extend", "update", "insert") and dotted(c.func.value)}
+    params = {a.arg for a in f.args.args}
+
+    def option_only(e, depth=0):
+        """the expression depends on the function's parameters / options only, not on anything accumulated while processing"""
+        callees = {id(c.func) for c in ast.walk(e) if isinstance(c, ast.Call)}
+        for n in ast.walk(e):
+            if isinstance(n, ast.Name) and id(n) not in callees:
+                if n.id in mutated:
+                    return False
+                if n.id in params or n.id in ("gffutils", "os", "len", "bool", "None", "True", "False"):
+                    continue
+                vs = defs.get(n.id)
+                if vs is None or depth > 3:
+                    return False
+                for a in vs:                      # every definition, and the tests selecting between them, depend on options only
+                    if not option_only(a.value, depth + 1):
+                        return False
+                    if any(not option_only(g.test, depth + 1) for g in flow.guards_of(a, stop=f) if isinstance(getattr(a, "_parent", None), ast.If)):
+                        return False
+        return True
+    n = 0
+    for st, c, what in sites:
+        for g in flow.guards_of(st, stop=f):
+            for atom, pol in flow.conjuncts(g.test, g.polarity):
+                n += 1
+                if option_only(atom):
+                    ctx.ok("G6", "%s:%d" % (DSP, st.lineno), "%s under %s%s (run options only)" % (what, "" if pol else "not ", src(atom)[:50]))
+                else:
+                    ctx.fail("G6", st, f._qualname, src(st)[:90],
+                             "%s only if %s%s, which depends on what this chromosome produced and not just on the run's options: for a chromosome "
+                             "where it is false none of the reference transcripts reaches extended_annotation.gtf"
+                             % (what, "" if pol else "not ", src(atom)[:60]))
+    ctx.floor("G6", "guard atoms above the extended-annotation build / dump", n, 4)
+
+
 def run(prog, ctx):
     ctx.rule("G5", "every creation of a reference transcript model is followed by registering its id in detected_known_isoforms in the "
                    "same block and is protected by `id not in registry` - as a dominating guard, or because the table its id ranges over is "
@@ -446,6 +531,10 @@ def run(prog, ctx):
                    "every non-known dumped model unfiltered")
     ctx.rule("G3", "every in-place mutation of a model's exon_blocks / strand is control-dependent, locally or at every call site, on "
                    "transcript_type != known (reference models alias the annotation's lists)")
+    ctx.rule("G6", "in construct_models_in_parallel every guard above create_extended_storage(...) and above the dump of its result depends on "
+                   "the function's parameters / run options only (single-definition locals resolved; nothing that is appended to while the "
+                   "chromosome is processed)")
+    g6(prog, ctx)
     g1(prog, ctx)
     g2(prog, ctx)
     g3(prog, ctx)
